@@ -1,5 +1,5 @@
 \* every single external edit of the "edit" shape, exported as behaviours for the driver
 CONSTANTS Shape = "edit" MaxEdits = 1 Budget = 0 LinkRepaired = TRUE
 SPECIFICATION Spec
-INVARIANTS InvC08Survives InvC08Reported InvC08Outside InvShape ExportEdits
+INVARIANTS InvC08Survives InvC08Reported InvC08Outside InvC03 InvShape ExportEdits
 CHECK_DEADLOCK TRUE
